@@ -163,7 +163,7 @@ fn all_strings(alpha: &[u8], minlen: usize, maxlen: usize) -> Vec<Vec<u8>> {
     out
 }
 
-fn texts_for(rng: &mut Rng, p: &[u8], alpha: &[u8], talpha: &[u8], big: bool) -> Vec<Vec<u8>> {
+fn texts_for(rng: &mut Rng, p: &[u8], alpha: &[u8], talpha: &[u8], big: bool, wb: usize) -> Vec<Vec<u8>> {
     let m = p.len();
     let lean = m >= 100; // every text of about |p| symbols costs |p|^2 matrix cells
     let mut texts: Vec<Vec<u8>> = vec![vec![]];
@@ -178,11 +178,11 @@ fn texts_for(rng: &mut Rng, p: &[u8], alpha: &[u8], talpha: &[u8], big: bool) ->
     texts.push(mutate(rng, p, e, alpha));
     if !lean || big {
         let n1 = (m + 20 + rng.below(60) as usize).min(300);
-        texts.push(planted(rng, p, n1, alpha, talpha, 3));
+        texts.push(planted_w(rng, p, n1, alpha, talpha, 3, wb));
     }
     if big && !lean {
         let n2 = 200 + rng.below(101) as usize;
-        texts.push(planted(rng, p, n2, alpha, talpha, m / 8 + 2));
+        texts.push(planted_w(rng, p, n2, alpha, talpha, m / 8 + 2, wb));
     }
     texts
 }
@@ -211,9 +211,11 @@ pub fn drive(log: &mut Log) {
 
     // (b) word-size boundaries of the single-word version
     let nvar = log.opts.n(3, 24);
+    let mut combo: u64 = 0; // rotates the alphabet/table kind over the (w, m) combinations
     for &w in &[8usize, 16, 32, 64] {
         let lens = [1usize, 2, w / 2 + 1, w - 1, w, w + 1];
         for &m in &lens {
+            combo += 1;
             for variant in 0..nvar {
                 case += 1;
                 if !log.mine(case) {
@@ -223,7 +225,7 @@ pub fn drive(log: &mut Log) {
                     continue; // one refusal per width is enough
                 }
                 let mut rng = Rng::new(seed, 11, case);
-                let kind = (variant + case) % 4;
+                let kind = (variant + combo) % 4;
                 let (alpha, talpha): (Vec<u8>, Vec<u8>) = match kind {
                     0 => (b"ACGT".to_vec(), b"ACGT".to_vec()),
                     1 => (b"ACGTNRYM".to_vec(), b"ACGTACGTN".to_vec()),
@@ -232,7 +234,7 @@ pub fn drive(log: &mut Log) {
                 };
                 let tb = make_tables(&mut rng, kind, &alpha);
                 let p = pattern(&mut rng, m, &alpha, variant / 4 + kind);
-                let texts = texts_for(&mut rng, &p, &alpha, &talpha, if log.opts.thorough() { variant % 2 == 0 } else { variant == 0 });
+                let texts = texts_for(&mut rng, &p, &alpha, &talpha, if log.opts.thorough() { variant % 2 == 0 } else { variant == 0 }, 0);
                 let mi = m as i64;
                 let mut ks: Vec<i64> = vec![0, 1, 2, mi - 1, mi, mi + 3, 255];
                 ks.retain(|&k| k >= 0);
@@ -276,13 +278,14 @@ pub fn drive(log: &mut Log) {
     }
     let nvar = log.opts.n(2, 20);
     for &(w, m) in &plan {
+        combo += 1;
         for variant in 0..nvar {
             case += 1;
             if !log.mine(case) {
                 continue;
             }
             let mut rng = Rng::new(seed, 12, case);
-            let kind = (variant + case) % 4;
+            let kind = (variant + combo) % 4;
             let (alpha, talpha): (Vec<u8>, Vec<u8>) = match kind {
                 0 => (b"ACGT".to_vec(), b"ACGT".to_vec()),
                 1 => (b"ab".to_vec(), b"ab".to_vec()),
@@ -291,7 +294,7 @@ pub fn drive(log: &mut Log) {
             };
             let tb = make_tables(&mut rng, if kind == 1 { 0 } else { kind }, &alpha);
             let p = pattern(&mut rng, m, &alpha, variant / 4 + kind);
-            let texts = texts_for(&mut rng, &p, &alpha, &talpha, variant % 2 == 0);
+            let texts = texts_for(&mut rng, &p, &alpha, &talpha, variant % 2 == 0, w);
             let mi = m as i64;
             let wi = w as i64;
             let mut ks: Vec<i64> = vec![0, 1, 2, wi - 1, wi, wi + 1, mi - 1, mi, mi + 3, 255, 1000, -1];
@@ -308,6 +311,9 @@ pub fn drive(log: &mut Log) {
             if blocks >= 3 {
                 log.oblige("long_3plus_blocks_small_k");
             }
+            if blocks >= 2 {
+                log.oblige("long_front_loaded_edits");
+            }
             if w == 64 && blocks >= 2 {
                 log.oblige("long_u64_multi_block");
             }
@@ -317,6 +323,42 @@ pub fn drive(log: &mut Log) {
             }
             run_one(log, "lg", &Case { long_impl: true, w, p: &p, tb: &tb, texts: &texts, ks: &ks });
         }
+    }
+
+    // (d) block-based version: a unary run that fills the leading blocks exactly, then a
+    //     tail over other symbols; the text repeats the run and the tail with one substituted
+    //     symbol somewhere. Many alignments of the run are equally good, the column values stay
+    //     at k across the block boundary: the blocks behind the boundary are dropped and
+    //     re-activated right at the threshold.
+    let nrun = log.opts.n(32, 400);
+    for i in 0..nrun {
+        case += 1;
+        if !log.mine(case) {
+            continue;
+        }
+        let mut rng = Rng::new(seed, 13, case);
+        let w = if i % 4 == 3 { 16 } else { 8 };
+        let blocks = 2 + rng.below(3) as usize;
+        let m = w * (blocks - 1) + 1 + rng.below(w as u64) as usize;
+        let b = 1 + rng.below(blocks as u64 - 1) as usize;
+        let mut p: Vec<u8> = vec![b'a'; w * b];
+        while p.len() < m {
+            p.push(*rng.pick(b"bc"));
+        }
+        let mut texts: Vec<Vec<u8>> = vec![];
+        for _ in 0..6 {
+            let mut t: Vec<u8> = rng.seq(rng.clone().below(10) as usize, b"bc");
+            let extra = if rng.below(3) == 0 { rng.below(4) as usize } else { 0 };
+            t.extend(vec![b'a'; w * b + extra]);
+            t.extend_from_slice(&p[w * b..]);
+            let j = rng.below(t.len() as u64) as usize;
+            t[j] = *rng.pick(b"abc");
+            let tail = rng.below(6) as usize;
+            t.extend(rng.seq(tail, b"bc"));
+            texts.push(t);
+        }
+        log.oblige("long_unary_run_to_block_boundary");
+        run_one(log, "ur", &Case { long_impl: true, w, p: &p, tb: &none, texts: &texts, ks: &[0, 1, 2] });
     }
 }
 
